@@ -81,8 +81,11 @@ def build_network(spec, cls=ChargingNetwork, station_order=None, constraint_orde
     stations = spec["stations"]
     if station_order is not None:
         stations = [stations[i] for i in station_order]
+    net.evse_objs = {}
     for s in stations:
-        net.register_evse(make_evse(s), s["voltage"], s["phase"])
+        evse = make_evse(s)
+        net.evse_objs[s["id"]] = evse  # handed in by us, so readable without private access
+        net.register_evse(evse, s["voltage"], s["phase"])
     cons = spec["constraints"]
     if constraint_order is not None:
         cons = [cons[i] for i in constraint_order]
@@ -149,10 +152,13 @@ class TraceNetwork(ChargingNetwork):
     def __init__(self, *a, **k):
         super().__init__(*a, **k)
         self.trace = []
+        self.pilot_trace = []
+        self.evse_objs = {}
 
     def post_charging_update(self):
         super().post_charging_update()
         self.trace.append({sid: (self.get_ev(sid).session_id if self.get_ev(sid) is not None else None) for sid in self.station_ids})
+        self.pilot_trace.append({sid: self.evse_objs[sid].current_pilot for sid in self.station_ids})
         if self.step_bound is not None and len(self.trace) > self.step_bound:
             raise NonTermination("more than %d periods simulated" % self.step_bound)
 
@@ -194,6 +200,11 @@ class Scripted(BaseAlgorithm):
         self.crashed = False
         self.shift = shift
         self.submitted = {}
+        self.post = None  # called as post(self, active_sessions, answer) after the answer is fixed
+        self.malformed = None  # {"t": period, "entry": schedule entry returned once at t}
+        self.malformed_done = False
+        self.snapshot = None
+        self.before_malformed = None
 
     def schedule(self, active_sessions):
         t = self.interface.current_time
@@ -202,11 +213,17 @@ class Scripted(BaseAlgorithm):
         if self.crash_at is not None and t == self.crash_at and not self.crashed:
             self.crashed = True
             raise Crash("scripted crash at %d" % t)
+        if self.malformed is not None and t == self.malformed["t"] and not self.malformed_done:
+            self.malformed_done = True
+            self.before_malformed = self.snapshot() if self.snapshot is not None else None
+            return materialise(self.malformed["entry"])
         if not self.table or t - self.shift < 0:
             out = {}
         else:
             out = materialise(self.table[(t - self.shift) % len(self.table)])
         self.submitted[t] = out
+        if self.post is not None:
+            self.post(self, active_sessions, out)
         return out
 
 
@@ -225,6 +242,7 @@ class Wrapped(BaseAlgorithm):
         self.crash_at = crash_at
         self.crashed = False
         self.submitted = {}
+        self.post = None
 
     def register_interface(self, interface):
         self._interface = interface
@@ -239,6 +257,8 @@ class Wrapped(BaseAlgorithm):
             raise Crash("wrapped crash at %d" % t)
         out = self.inner.schedule(active_sessions)
         self.submitted[t] = out
+        if self.post is not None:
+            self.post(self, active_sessions, out)
         return out
 
 
@@ -541,6 +561,7 @@ def scenarios(
     noise=True,
     window=6,
     max_per_station=3,
+    sched_max_len=4,
 ):
     n = draw(st.integers(1, max_stations))
     ids = list(draw(st.permutations(STATION_POOL)))[:n]
@@ -560,7 +581,7 @@ def scenarios(
     last = max(s["departure"] for s in sessions)
     recomputes = draw(st.lists(st.integers(0, last + 3), max_size=3))
     if sched_kind == "scripted":
-        sch = draw(scripted_schedulers(stations))
+        sch = draw(scripted_schedulers(stations, max_len=sched_max_len))
     elif sched_kind == "always_max":
         sch = draw(scripted_schedulers(stations, always_max=True))
     elif sched_kind == "uncontrolled":
